@@ -27,4 +27,5 @@ class DefinedMethodsKey(ListKey["Method"]):
 
 @dataclass(frozen=True)
 class ProvidedMethodsKey(ListKey["Method"]):
-    pass
+    # The transaction manager reads this key before it registers the methods of merged transactions.
+    lock_on_get = False
